@@ -24,9 +24,11 @@ struct Op { Kind kind; int k; int64_t timeout_ns; };
 struct Program {
   std::string name;
   int cap;
-  int flavor;  // 0: concurrent + futex wait + futex wake (default API); 1: concurrent spin (no futex); 2: non-concurrent spin; 3: non-concurrent futex
+  int flavor;  // 0: concurrent + futex wait + futex wake (default API); 1: concurrent spin (no futex); 2: non-concurrent spin; 3: non-concurrent futex;
+               // 4: thread 0 non-concurrent spin, the others concurrent spin; 5: thread 0 non-concurrent futex, the others concurrent futex
   std::vector<std::vector<Op>> threads;
   bool progress;  // blocking operations are matched, so every execution must terminate
+  size_t start_round = 0;  // the queue starts as if this many full laps had already passed through it (see fast_forward)
 };
 static std::vector<Program> g_programs;
 
@@ -45,8 +47,8 @@ static bool parse_op(const char* tok, Op* op) {
   }
   return false;
 }
-static void add(const char* name, int cap, int flavor, std::initializer_list<const char*> threads, bool progress = true) {
-  Program p; p.name = name; p.cap = cap; p.flavor = flavor; p.progress = progress;
+static void add(const char* name, int cap, int flavor, std::initializer_list<const char*> threads, bool progress = true, size_t start_round = 0) {
+  Program p; p.name = name; p.cap = cap; p.flavor = flavor; p.progress = progress; p.start_round = start_round;
   for (const char* t : threads) {
     std::vector<Op> ops; std::string s(t); size_t pos = 0;
     while (pos < s.size()) {
@@ -58,7 +60,7 @@ static void add(const char* name, int cap, int flavor, std::initializer_list<con
     }
     p.threads.push_back(ops);
   }
-  p.name += " cap" + std::to_string(cap) + " f" + std::to_string(flavor) + ":";
+  p.name += " cap" + std::to_string(cap) + " f" + std::to_string(flavor) + (start_round ? " lap" + std::to_string(start_round) : std::string()) + ":";
   for (const char* t : threads) p.name += std::string(" [") + t + "]";
   g_programs.push_back(p);
 }
@@ -107,6 +109,30 @@ static void build_programs() {
   add("try-waker", 1, 0, {"pop", "trypush"}, false);
   add("trybatch-waker", 2, 0, {"popn2", "trypushn2"}, false);
   add("trypop-wakes-producer", 1, 0, {"push push", "trypop pop"});
+  // ---- a single non-concurrent producer next to concurrent consumers: batch requests that straddle the ring end while a
+  //      consumer of the previous lap still owns a slot --------------------------------------------------------------------
+  add("nc-trypushn-straddle", 2, 4, {"push push push trypushn2", "pop pop", "pop"}, false);
+  add("nc-trypushn-straddle-futex", 2, 5, {"push push push trypushn2", "pop pop", "pop"}, false);
+  add("nc-pushn-straddle", 2, 4, {"push pushn2", "pop", "pop pop"});
+  // ---- the 16-bit slot version wraps after 32768 laps: the same programs started just before the wrap -----------------------
+  add("spsc-1", 1, 0, {"push push", "pop pop"}, true, 32767);
+  add("two-sleepers-1slot", 1, 0, {"pop", "push", "push pop"}, true, 32767);
+  add("producer-sleeps-full", 1, 0, {"push push", "pop", "pop"}, true, 32767);
+  add("producer-sleeps-full", 1, 0, {"push push", "pop", "pop"}, true, 32766);
+  add("batch-both", 2, 0, {"popn2 popn2", "pushn2 pushn2"}, true, 32767);
+  add("try-vs-slow-producer", 2, 0, {"push", "trypop trypop"}, true, 32768);
+  add("trypush-vs-slow-consumer", 1, 0, {"trypush trypush", "pop"}, false, 32767);
+  add("trybatch", 2, 0, {"pushn2", "trypopn2 trypopn2"}, true, 32768);
+  add("spsc-spin", 1, 1, {"push push", "pop pop"}, true, 32767);
+  add("timed-pop-racing", 2, 0, {"tpop2@1000000", "push push"}, true, 32767);
+}
+// The queue as it is after `laps` full laps went through it and it is empty again: tickets at laps*capacity, every slot at
+// the push version of that lap, no waiter bits. harness/sq_queue.cpp checks this against really pushing and popping that many
+// elements (same private state, same behaviour afterwards).
+static void fast_forward(ConcurrentBoundedQueue<Payload>& q, size_t laps) {
+  size_t cap = q.capacity();
+  q._next_push_index.store(laps * cap, std::memory_order_relaxed); q._next_pop_index.store(laps * cap, std::memory_order_relaxed);
+  for (size_t i = 0; i < cap; i++) q._slots.futex(i)._futex.value().store((uint32_t)(uint16_t)(laps << 1), std::memory_order_relaxed);
 }
 int harness_configs() { build_programs(); return (int)g_programs.size(); }
 const char* harness_config_name(int c) { build_programs(); return g_programs[c].name.c_str(); }
@@ -169,7 +195,9 @@ static void run_thread(Ctx cx, const Program* p, int tid) {
       case 0: run_op<true, true, true>(cx, tid, (int)i, ops[i]); break;
       case 1: run_op<true, false, false>(cx, tid, (int)i, ops[i]); break;
       case 2: run_op<false, false, false>(cx, tid, (int)i, ops[i]); break;
-      default: run_op<false, true, true>(cx, tid, (int)i, ops[i]); break;
+      case 3: run_op<false, true, true>(cx, tid, (int)i, ops[i]); break;
+      case 4: if (tid == 0) run_op<false, false, false>(cx, tid, (int)i, ops[i]); else run_op<true, false, false>(cx, tid, (int)i, ops[i]); break;
+      default: if (tid == 0) run_op<false, true, true>(cx, tid, (int)i, ops[i]); else run_op<true, true, true>(cx, tid, (int)i, ops[i]); break;
     }
   }
 }
@@ -182,6 +210,7 @@ void harness_main(int cfg) {
   bbmc::sleeps_advance_clock(timed);  // untimed spinning does not depend on the clock
   Queue q(p.cap);
   bbmc::require(q.capacity() == (size_t)p.cap, "capacity is not the requested power of two");
+  if (p.start_round) fast_forward(q, p.start_round);
   OpHistory h;
   Ctx cx{&q, &h};
   std::vector<std::thread> ts;
